@@ -97,7 +97,7 @@ def RangeA.values (t : RType) (base : Option (List Part)) (a : RangeA) : Option 
   | _, _ => none
 
 /-- `min` only as the very first boundary, `max` only as the very last one — the only places where
-`lys_compile_type_range` accepts the keywords (finding F52 for the other, equally valid, placements) -/
+`lys_compile_type_range` accepts the keywords (finding F76 for the other, equally valid, placements) -/
 def PartA.KwOK (p : PartA) (isFirst isLast : Bool) : Prop :=
   (p.lo matches .min → isFirst = true) ∧
   (p.lo matches .max → isLast = true ∧ p.hi = none) ∧
